@@ -189,6 +189,39 @@ func runC19(c *Ctx) {
 	c.Floor("pending-state-consulted", 12)
 	c.Floor("singleton-set-flag", 9)
 
+	// 4b. removal-always-recorded: a removal inside the transaction leaves a tombstone on every successful path, also when
+	// the name has a pending write (the base may hold the reference too: without the tombstone it shows through again and
+	// Commit never removes it)
+	const r4b = "removal-always-recorded"
+	if rm := c.MustFunc(r4b, txShort+".ReferenceStorage.RemoveReference"); rm != nil {
+		rsT := p.lookupType(txShort, "ReferenceStorage")
+		delF := fieldOf(rsT, "deleted")
+		rinfo := rm.Pkg.TypesInfo
+		f := p.FlowOf(rm)
+		c.Analysed(rm)
+		marks := func(n ast.Node) bool {
+			as, ok := n.(*ast.AssignStmt)
+			if !ok {
+				return false
+			}
+			for _, l := range as.Lhs {
+				if ix, ok := unparen(l).(*ast.IndexExpr); ok {
+					if sel, ok := unparen(ix.X).(*ast.SelectorExpr); ok && delF != nil && rinfo.Uses[sel.Sel] == types.Object(delF) {
+						return true
+					}
+				}
+			}
+			return false
+		}
+		h := f.Search(SearchOpts{Starts: []Loc{f.Entry()}, Barrier: marks, Sink: func(n ast.Node) bool {
+			r, ok := n.(*ast.ReturnStmt)
+			return ok && !returnsNonNilError(rinfo, rm.Decl.Body, r)
+		}})
+		c.Check(h == nil && delF != nil, r4b, rm.Name(), rm.Decl.Pos(), orStr(ifStr(h != nil, "RemoveReference can return successfully without recording the removal in the pending deletions: a reference that also exists in the base shows through again and survives Commit"+hitLines(f, h)),
+			"every successful return is preceded by recording the name in the pending deletions"))
+	}
+	c.Floor(r4b, 1)
+
 	// 5. commit-coverage
 	const r5 = "commit-coverage"
 	basicT := p.lookupType(txShort, "basic")
